@@ -1,4 +1,5 @@
 import Mimic.Cursor
+import Mimic.Script
 import Mimic.Extracted.HandlersCode
 /-!
 The translated statement handlers of `connection.py` (`Mimic.Extracted.HandlersCode`, regenerated from `/repo` by
@@ -10,7 +11,7 @@ for every naming of packets, injective ones included, so nothing is lost).
 -/
 namespace MimicProofs.HandlersCode
 open Mimic.Py Mimic.Extracted.HandlersCode
-open Mimic.Extracted.ParsersCode (ComStmtFetch ComStmtReset ComStmtClose ComStmtSendLongData parse_handle_stmt_fetch parse_com_stmt_reset parse_com_stmt_close parse_com_stmt_send_long_data)
+open Mimic.Extracted.ParsersCode (ComQuery ComStmtFetch ComStmtReset ComStmtClose ComStmtSendLongData parse_handle_stmt_fetch parse_com_stmt_reset parse_com_stmt_close parse_com_stmt_send_long_data)
 
 /-! ### dictionaries -/
 
@@ -571,12 +572,12 @@ def cleared (x : ComStmtExecute S) : ComStmtExecute S := { x with stmt := { x.st
     previous cursor are discarded **before** the application runs; a cursor is stored only by a cursor-opening execution
     with a result set, and then it is the result's row source, untouched. -/
 theorem handle_stmt_execute_spec (coldef : Nat → Nat → Bytes) (parse : Connection S → Bytes → Option (ComStmtExecute S))
-    (app : ComStmtExecute S → Option (ResultSet S)) (c : Connection S) (data : Bytes) :
+    (app : S → Option (ResultSet S)) (c : Connection S) (data : Bytes) :
     match parse c data with
     | none => handle_stmt_execute coldef parse app c data = .error c
     | some x =>
       let c0 : Connection S := { c with prepared_stmts := dictSet c.prepared_stmts x.stmt.stmt_id (cleared x).stmt }
-      match app (cleared x) with
+      match app x.sql with
       | none => handle_stmt_execute coldef parse app c data = .error c0
       | some rs =>
         if rs.columns.isEmpty then
@@ -597,16 +598,12 @@ theorem handle_stmt_execute_spec (coldef : Nat → Nat → Bytes) (parse : Conne
   | none => rfl
   | some x =>
     simp only [dictSet_dictSet]
-    cases ha : app (cleared x) with
+    cases ha : app x.sql with
     | none =>
-      have : app { sql := x.sql, stmt := { stmt_id := x.stmt.stmt_id, sql := x.stmt.sql, num_params := x.stmt.num_params, param_buffers := none, cursor := none },
-                   use_cursor := x.use_cursor } = none := ha
-      simp only [this]
+      simp only [ha]
       rfl
     | some rs =>
-      have : app { sql := x.sql, stmt := { stmt_id := x.stmt.stmt_id, sql := x.stmt.sql, num_params := x.stmt.num_params, param_buffers := none, cursor := none },
-                   use_cursor := x.use_cursor } = some rs := ha
-      simp only [this]
+      simp only [ha]
       by_cases he : rs.columns.isEmpty = true
       · simp only [he, Bool.not_true, Bool.not_false, if_true]
         exact ⟨_, _, _, _, _, rfl⟩
@@ -655,14 +652,14 @@ theorem result_state {r : Except (Connection S) (Connection S)} {c' d : Connecti
     statement is untouched.  Hypothesis: the parser handed back the registry's own object for the id (what
     `get_stmt` returns). -/
 theorem handle_stmt_execute_registry (row : Bytes → Nat) (coldef : Nat → Nat → Bytes) (parse : Connection S → Bytes → Option (ComStmtExecute S))
-    (app : ComStmtExecute S → Option (ResultSet S)) (c : Connection S) (data : Bytes) (x : ComStmtExecute S) (nxt : Nat)
+    (app : S → Option (ResultSet S)) (c : Connection S) (data : Bytes) (x : ComStmtExecute S) (nxt : Nat)
     (hp : parse c data = some x) (hreg : dictGet c.prepared_stmts x.stmt.stmt_id = some x.stmt) (c' : Connection S)
     (hrun : handle_stmt_execute coldef parse app c data = .ok c' ∨ handle_stmt_execute coldef parse app c data = .error c') :
-    absStmts row c' = (Mimic.Cursor.step ⟨absStmts row c, nxt⟩ (.execute x.stmt.stmt_id x.use_cursor (absResult row (app (cleared x))))).1.stmts := by
+    absStmts row c' = (Mimic.Cursor.step ⟨absStmts row c, nxt⟩ (.execute x.stmt.stmt_id x.use_cursor (absResult row (app x.sql)))).1.stmts := by
   have h := handle_stmt_execute_spec coldef parse app c data
   have habs : absStmts row c x.stmt.stmt_id = some (absStmt row x.stmt) := by simp [absStmts, hreg]
   simp only [hp] at h
-  cases ha : app (cleared x) with
+  cases ha : app x.sql with
   | none =>
     simp only [ha] at h
     have hc := result_state (Or.inr h) hrun
@@ -706,13 +703,13 @@ theorem handle_stmt_execute_registry (row : Bytes → Nat) (coldef : Nat → Nat
 /-- however COM_STMT_EXECUTE ends once its packet was parsed, the statement is left without long data: what was sent with
     COM_STMT_SEND_LONG_DATA is bound by this execution or discarded, never kept for the next one -/
 theorem handle_stmt_execute_discards_long_data (coldef : Nat → Nat → Bytes) (parse : Connection S → Bytes → Option (ComStmtExecute S))
-    (app : ComStmtExecute S → Option (ResultSet S)) (c : Connection S) (data : Bytes) (x : ComStmtExecute S)
+    (app : S → Option (ResultSet S)) (c : Connection S) (data : Bytes) (x : ComStmtExecute S)
     (hp : parse c data = some x) (c' : Connection S)
     (hrun : handle_stmt_execute coldef parse app c data = .ok c' ∨ handle_stmt_execute coldef parse app c data = .error c') :
     ∃ st, dictGet c'.prepared_stmts x.stmt.stmt_id = some st ∧ st.param_buffers = none ∧ st.sql = x.stmt.sql ∧ st.num_params = x.stmt.num_params := by
   have h := handle_stmt_execute_spec coldef parse app c data
   simp only [hp] at h
-  cases ha : app (cleared x) with
+  cases ha : app x.sql with
   | none =>
     simp only [ha] at h
     have hc := result_state (Or.inr h) hrun
@@ -747,5 +744,248 @@ theorem handle_stmt_execute_discards_long_data (coldef : Nat → Nat → Bytes) 
           have hc := result_state (Or.inl h) hrun
           subst hc
           exact ⟨(cleared x).stmt, by simp [dictGet_dictSet], rfl, rfl, rfl⟩
+
+/-! ### COM_QUERY (text protocol), COM_PING, COM_RESET_CONNECTION, COM_DEBUG -/
+
+/-- the row loop of a text result: every packet of the row source is written (buffered), in order, and counted; a source
+    that raises leaves what was written and ends the handler with that state -/
+theorem query_rows_loop : ∀ (rows : List Bytes) (boom : Bool) (self : Connection S) (rs : ResultSet S) (n : Nat),
+    Gen.iterE (σ := Connection S × ResultSet S × Nat) (ρ := Connection S) (fun _ st => st) Connection_handle_query_loop2 Connection_handle_query_loop1
+        rows boom (self, rs, n)
+      = if boom then .error { self with out := self.out ++ rows.map (fun p => Ev.write p false) }
+        else .ok (.brk ({ self with out := self.out ++ rows.map (fun p => Ev.write p false) }, rs, n + rows.length)) := by
+  intro rows
+  induction rows with
+  | nil => intro boom self rs n; cases boom <;> simp [Gen.iterE, Connection_handle_query_loop2]
+  | cons x rest ih =>
+    intro boom self rs n
+    simp only [Gen.iterE, Connection_handle_query_loop1, ih, List.map_cons, List.append_assoc, List.singleton_append, List.length_cons]
+    have : n + 1 + rest.length = n + (rest.length + 1) := by omega
+    rw [this]
+
+/-- the metadata block of a text result: the column-count packet and one definition per column, all buffered -/
+def queryMeta (coldef : Nat → Nat → Bytes) (c : Connection S) (rs : ResultSet S) : List Ev :=
+  Ev.write (Mimic.Extracted.ParsersCode.make_column_count c.capabilities rs.columns.length) false ::
+    rs.columns.map (fun col => Ev.write (coldef c.server_charset col) false)
+
+/-- **`Connection.handle_query` with `text_resultset` inlined, translated** — what it writes for every outcome of the parser
+    and of the application: a malformed packet or a raising application writes nothing; no result set: one OK; a result set:
+    column count, the definitions, the metadata EOF unless deprecated, **every row of the source exactly once, in order**,
+    then one terminator whose affected-rows counter is the number of rows, then a drain; a row source that raises in the
+    middle leaves exactly the rows before it on the wire (the ERR is the command loop's). -/
+theorem handle_query_spec (E : Env S) (coldef : Nat → Nat → Bytes) (app : S → Option (ResultSet S)) (c : Connection S) (data : Bytes) :
+    match Mimic.Extracted.ParsersCode.parse_com_query E c.capabilities c.client_charset data with
+    | none => handle_query E coldef app c data = .error c
+    | some q =>
+      match app q.sql with
+      | none => handle_query E coldef app c data = .error c
+      | some rs =>
+        if rs.columns.isEmpty then
+          ∃ (e : Bool) (a l w f : Nat), handle_query E coldef app c data = .ok { c with out := c.out ++ [Ev.write (ok c e a l w f) true] }
+        else
+          ∃ (w f l w2 fl : Nat),
+            let pre := if deprecate_eof c then [] else [Ev.write (eof c w f) false]
+            let sent := c.out ++ queryMeta coldef c rs ++ pre ++ rs.rows.rows.map (fun p => Ev.write p false)
+            handle_query E coldef app c data
+              = if rs.rows.boom then .error { c with out := sent }
+                else .ok { c with out := sent ++ [Ev.write (ok_or_eof c rs.rows.rows.length l w2 fl) false, Ev.drain] } := by
+  unfold handle_query
+  cases hp : Mimic.Extracted.ParsersCode.parse_com_query E c.capabilities c.client_charset data with
+  | none => rfl
+  | some q =>
+    simp only
+    cases ha : app q.sql with
+    | none => rfl
+    | some rs =>
+      simp only
+      by_cases he : rs.columns.isEmpty = true
+      · simp only [he, Bool.not_true, Bool.not_false, if_true]
+        exact ⟨_, _, _, _, _, rfl⟩
+      · have he' : rs.columns.isEmpty = false := by simpa using he
+        simp only [he', Bool.not_false, Bool.not_true, Bool.false_eq_true, if_false, deprecate_eof, query_rows_loop, Nat.zero_add]
+        by_cases hd : Mimic.Py.hasBit c.capabilities 24 = true
+        · by_cases hb : rs.rows.boom = true
+          · simp only [hd, hb, Bool.not_true, Bool.false_eq_true, if_true, if_false]
+            exact ⟨0, 0, 0, 0, 0, by simp only [queryMeta, List.append_assoc, List.cons_append, List.nil_append, List.singleton_append, List.append_nil]; try rfl⟩
+          · simp only [hd, hb, Bool.not_true, Bool.false_eq_true, if_true, if_false]
+            exact ⟨0, 0, _, _, _, by simp only [queryMeta, List.append_assoc, List.cons_append, List.nil_append, List.singleton_append, List.append_nil]; try rfl⟩
+        · have hd' : Mimic.Py.hasBit c.capabilities 24 = false := by simpa using hd
+          by_cases hb : rs.rows.boom = true
+          · simp only [hd', hb, Bool.not_false, Bool.false_eq_true, if_true, if_false]
+            exact ⟨_, _, 0, 0, 0, by simp only [queryMeta, List.append_assoc, List.cons_append, List.nil_append, List.singleton_append, List.append_nil]; try rfl⟩
+          · simp only [hd', hb, Bool.not_false, Bool.false_eq_true, if_true, if_false]
+            exact ⟨_, _, _, _, _, by simp only [queryMeta, List.append_assoc, List.cons_append, List.nil_append, List.singleton_append, List.append_nil]; try rfl⟩
+
+/-- COM_PING, COM_RESET_CONNECTION and COM_DEBUG write exactly one OK and change nothing else -/
+theorem simple_handlers_spec (c : Connection S) (data : Bytes) :
+    (∃ (e : Bool) (a l w f : Nat), handle_ping c data = .ok { c with out := c.out ++ [Ev.write (ok c e a l w f) true] }) ∧
+    (∃ (e : Bool) (a l w f : Nat), handle_reset_connection c data = .ok { c with out := c.out ++ [Ev.write (ok c e a l w f) true] }) ∧
+    (∃ (e : Bool) (a l w f : Nat), handle_debug c data = .ok { c with out := c.out ++ [Ev.write (ok c e a l w f) true] }) :=
+  ⟨⟨_, _, _, _, _, rfl⟩, ⟨_, _, _, _, _, rfl⟩, ⟨_, _, _, _, _, rfl⟩⟩
+
+/-! ### the handler scripts of the connection machine are the code's write / drain skeleton
+
+`Mimic.Script.scriptOf` (hand-written, what C03 / C09 / C10 / C12 reason about) lists a handler's micro-operations.  Its
+*wire skeleton* — which operations put a packet into the buffer and where the flush points are — is derived here from the
+translated handlers, for every result size. -/
+
+/-- `false`: a packet goes into the write buffer; `true`: a flush point (`drain()`, or the drain of `write(p)`) -/
+def evShape : List Ev → List Bool
+  | [] => []
+  | .write _ false :: r => false :: evShape r
+  | .write _ true :: r => false :: true :: evShape r
+  | .drain :: r => true :: evShape r
+  | .session_reset :: r => evShape r
+
+def opShape : List Mimic.Conn.Op → List Bool
+  | [] => []
+  | .emit _ :: r => false :: opShape r
+  | .drain :: r => true :: opShape r
+  | _ :: r => opShape r
+
+theorem evShape_append (a b : List Ev) : evShape (a ++ b) = evShape a ++ evShape b := by
+  induction a with
+  | nil => rfl
+  | cons x xs ih =>
+    cases x with
+    | write p d => cases d <;> simp [evShape, ih]
+    | drain => simp [evShape, ih]
+    | session_reset => simp [evShape, ih]
+
+theorem opShape_append (a b : List Mimic.Conn.Op) : opShape (a ++ b) = opShape a ++ opShape b := by
+  induction a with
+  | nil => rfl
+  | cons x xs ih => cases x <;> simp [opShape, ih]
+
+theorem evShape_buffered (ps : List Bytes) : evShape (ps.map (fun p => Ev.write p false)) = List.replicate ps.length false := by
+  induction ps with
+  | nil => rfl
+  | cons p ps ih => simp [evShape, ih, List.replicate_succ]
+
+theorem evShape_flushed (ps : List Bytes) : evShape (ps.map (fun p => Ev.write p true)) = (List.replicate ps.length [false, true]).flatten := by
+  induction ps with
+  | nil => rfl
+  | cons p ps ih => simp [evShape, ih, List.replicate_succ]
+
+theorem evShape_buffered' {α : Type} (f : α → Bytes) (xs : List α) : evShape (xs.map (fun x => Ev.write (f x) false)) = List.replicate xs.length false := by
+  induction xs with
+  | nil => rfl
+  | cons p ps ih => simp [evShape, ih, List.replicate_succ]
+
+theorem evShape_flushed' {α : Type} (f : α → Bytes) (xs : List α) : evShape (xs.map (fun x => Ev.write (f x) true)) = (List.replicate xs.length [false, true]).flatten := by
+  induction xs with
+  | nil => rfl
+  | cons p ps ih => simp [evShape, ih, List.replicate_succ]
+
+theorem evShape_replicate_buffered (n : Nat) (p : Bytes) : evShape (List.replicate n (Ev.write p false)) = List.replicate n false := by
+  induction n with
+  | zero => rfl
+  | succ k ih => simp [List.replicate_succ, evShape, ih]
+
+/-- a row source that yields `n` rows and does not raise, as the scripts describe it -/
+def plainRows (n : Nat) : List Mimic.Script.RStep := List.replicate n (.row 0 false)
+
+theorem opShape_rowOps_buffered (n : Nat) : opShape (Mimic.Script.rowOps false (plainRows n)) = List.replicate n false := by
+  induction n with
+  | zero => rfl
+  | succ k ih => simp [plainRows, List.replicate_succ, Mimic.Script.rowOps, opShape] at ih ⊢; exact ih
+
+theorem opShape_rowOps_flushed (n : Nat) : opShape (Mimic.Script.rowOps true (plainRows n)) = (List.replicate n [false, true]).flatten := by
+  induction n with
+  | zero => rfl
+  | succ k ih => simp [plainRows, List.replicate_succ, Mimic.Script.rowOps, opShape] at ih ⊢; exact ih
+
+theorem opShape_colDefs_buffered (n : Nat) : opShape (Mimic.Script.colDefs false n) = List.replicate n false := by
+  induction n with
+  | zero => rfl
+  | succ k ih => simp [Mimic.Script.colDefs, List.replicate_succ, opShape] at ih ⊢; exact ih
+
+theorem opShape_colDefs_flushed (n : Nat) : opShape (Mimic.Script.colDefs true n) = (List.replicate n [false, true]).flatten := by
+  induction n with
+  | zero => rfl
+  | succ k ih => simp [Mimic.Script.colDefs, List.replicate_succ, opShape] at ih ⊢; exact ih
+
+/-- **COM_QUERY: the script's wire skeleton is the code's**, for every number of columns and rows and both EOF conventions -/
+theorem query_script_is_code (E : Env S) (coldef : Nat → Nat → Bytes) (app : S → Option (ResultSet S)) (c : Connection S) (data : Bytes)
+    (q : ComQuery S) (rs : ResultSet S)
+    (hp : Mimic.Extracted.ParsersCode.parse_com_query E c.capabilities c.client_charset data = some q) (ha : app q.sql = some rs)
+    (hb : rs.rows.boom = false) :
+    ∃ c' tail, handle_query E coldef app c data = .ok c' ∧ c'.out = c.out ++ tail ∧
+      evShape tail = opShape (Mimic.Script.scriptOf (deprecate_eof c)
+        (.query { ncols := rs.columns.length, rows := plainRows rs.rows.rows.length })) := by
+  have h := handle_query_spec E coldef app c data
+  simp only [hp, ha] at h
+  by_cases he : rs.columns.isEmpty = true
+  · simp only [he, if_true] at h
+    obtain ⟨e, a, l, w, f, h⟩ := h
+    have hn : rs.columns.length = 0 := by simpa using he
+    exact ⟨_, _, h, rfl, by simp [Mimic.Script.scriptOf, Mimic.Script.callOps, hn, evShape, opShape]⟩
+  · have he' : rs.columns.isEmpty = false := by simpa using he
+    have hn : rs.columns.length ≠ 0 := by
+      intro e; apply he; simpa using e
+    simp only [he', Bool.false_eq_true, if_false, hb] at h
+    obtain ⟨w, f, l, w2, fl, h⟩ := h
+    refine ⟨_, _, h, by simp only [List.append_assoc]; rfl, ?_⟩
+    simp only [Mimic.Script.scriptOf, Mimic.Script.callOps, hn, if_false, ne_eq, not_true_eq_false, opShape_append, evShape_append, queryMeta,
+      opShape, evShape, evShape_buffered, evShape_buffered', opShape_rowOps_buffered, opShape_colDefs_buffered, List.cons_append, List.nil_append]
+    cases hd : deprecate_eof c <;>
+      simp only [evShape, opShape, if_true, if_false, Bool.false_eq_true, List.append_assoc, List.cons_append, List.nil_append, List.singleton_append, List.append_nil]
+
+/-- COM_PING / COM_RESET_CONNECTION / COM_DEBUG: one packet, one flush -/
+theorem ping_script_is_code (c : Connection S) (data : Bytes) (dep : Bool) :
+    ∃ c' tail, handle_ping c data = .ok c' ∧ c'.out = c.out ++ tail ∧ evShape tail = opShape (Mimic.Script.scriptOf dep .ping) := by
+  obtain ⟨⟨e, a, l, w, f, h⟩, _, _⟩ := simple_handlers_spec c data
+  exact ⟨_, _, h, rfl, rfl⟩
+
+/-- COM_STMT_EXECUTE with a result set: every packet is followed by a flush (the binary protocol drains each packet), for every
+    number of columns and rows, with and without cursor, both EOF conventions -/
+theorem execute_script_is_code (coldef : Nat → Nat → Bytes) (parse : Connection S → Bytes → Option (ComStmtExecute S))
+    (app : S → Option (ResultSet S)) (c : Connection S) (data : Bytes) (x : ComStmtExecute S) (rs : ResultSet S)
+    (hp : parse c data = some x) (ha : app x.sql = some rs) (hb : rs.rows.boom = false) :
+    ∃ c' tail, handle_stmt_execute coldef parse app c data = .ok c' ∧ c'.out = c.out ++ tail ∧
+      evShape tail = opShape (Mimic.Script.scriptOf (deprecate_eof c)
+        (.execute true x.use_cursor { ncols := rs.columns.length, rows := plainRows rs.rows.rows.length })) := by
+  have h := handle_stmt_execute_spec coldef parse app c data
+  simp only [hp, ha] at h
+  by_cases he : rs.columns.isEmpty = true
+  · simp only [he, if_true] at h
+    obtain ⟨e, a, l, w, f, h⟩ := h
+    have hn : rs.columns.length = 0 := by simpa using he
+    exact ⟨_, _, h, rfl, by simp [Mimic.Script.scriptOf, Mimic.Script.callOps, hn, evShape, opShape]⟩
+  · have he' : rs.columns.isEmpty = false := by simpa using he
+    have hn : rs.columns.length ≠ 0 := by
+      intro e; apply he; simpa using e
+    simp only [he', Bool.false_eq_true, if_false] at h
+    cases hu : x.use_cursor with
+    | true =>
+      simp only [hu, if_true] at h
+      obtain ⟨a, l, w, h⟩ := h
+      refine ⟨_, _, h, by simp only [List.append_assoc]; rfl, ?_⟩
+      simp only [Mimic.Script.scriptOf, Mimic.Script.callOps, hn, if_false, ne_eq, not_true_eq_false, opShape_append, evShape_append, execMeta,
+        opShape, evShape, evShape_flushed', opShape_colDefs_flushed, List.cons_append, List.nil_append, Bool.not_true, if_true]
+      simp only [evShape, opShape, opShape_append, opShape_colDefs_flushed, if_true, if_false, Bool.false_eq_true, List.append_assoc, List.cons_append, List.nil_append, List.singleton_append, List.append_nil]
+    | false =>
+      simp only [hu, Bool.false_eq_true, if_false, hb] at h
+      obtain ⟨w, f, a, l, w2, fl, h⟩ := h
+      refine ⟨_, _, h, by simp only [List.append_assoc]; rfl, ?_⟩
+      simp only [Mimic.Script.scriptOf, Mimic.Script.callOps, hn, if_false, ne_eq, not_true_eq_false, opShape_append, evShape_append, execMeta,
+        opShape, evShape, evShape_flushed, evShape_flushed', opShape_colDefs_flushed, opShape_rowOps_flushed, List.cons_append, List.nil_append,
+        Bool.not_true, Bool.false_eq_true]
+      cases hd : deprecate_eof c <;> simp only [opShape_append, opShape_colDefs_flushed, opShape_rowOps_flushed, opShape, if_true, if_false, Bool.false_eq_true] <;>
+        simp only [evShape, opShape, if_true, if_false, Bool.false_eq_true, List.append_assoc, List.cons_append, List.nil_append, List.singleton_append, List.append_nil]
+
+/-- COM_STMT_PREPARE: prepare-OK, the parameter definitions, the closing EOF, all buffered, then one flush -/
+theorem prepare_script_is_code (E : Env S) (cp : S → Nat) (pc : Nat → Bytes) (c : Connection S) (data : Bytes) (sql : S)
+    (hd : E.decode c.client_charset data = some sql) :
+    ∃ c' tail, handle_stmt_prepare E cp pc c data = .ok c' ∧ c'.out = c.out ++ tail ∧
+      evShape tail = opShape (Mimic.Script.scriptOf (deprecate_eof c) (.prepare (cp sql))) := by
+  have h := handle_stmt_prepare_spec E cp pc c data
+  simp only [hd] at h
+  obtain ⟨c', w, f, hrun, _, _, _, _, hout⟩ := h
+  refine ⟨c', _, hrun, by rw [hout, List.append_assoc], ?_⟩
+  simp only [prepareResponse, Mimic.Script.scriptOf, opShape_append, evShape_append, opShape, evShape, opShape_colDefs_buffered]
+  by_cases h0 : cp sql = 0
+  · simp [h0, evShape, opShape]
+  · cases hdep : deprecate_eof c <;> simp [h0, hdep, evShape, opShape, evShape_append, evShape_replicate_buffered, List.map_replicate]
 
 end MimicProofs.HandlersCode
